@@ -37,6 +37,7 @@ FINDING_TEXT = {
     "lazy_unsorted": "tree differences located only in the lazy-import lines (set iteration order) of a model module",
     "sort_case_tie": "import lines that differ only in case are emitted in set / arrival order by `| sort` (case-insensitive, stable)",
     "addl_lazy_order": "from_dict of a model whose additionalProperties is a $ref carries the referenced model's lazy imports only when that model was processed first",
+    "int_enum_twin_order": "two int enums resolve to one class name with the same values listed in different orders; int_enum.py.jinja emits the members of whichever declaration was registered last",
     "module_collision_order": "two classes share one module file; which one survives depends on the order of components.schemas",
 }
 
@@ -109,7 +110,7 @@ def _explains(la, lb, X, reorder_only, free=frozenset()):
     return xa == xb if reorder_only else True
 
 
-def classify_file(path, ha, hb, ia, ib, lazy_fixed):
+def classify_file(path, ha, hb, ia, ib, tbl):
     """-> ("same", "") | ([finding ids], detail) | ("violation", detail).  ia/ib: the driver's reports for the two generations."""
     if ha == hb:
         return "same", ""
@@ -126,6 +127,14 @@ def classify_file(path, ha, hb, ia, ib, lazy_fixed):
     first = next((i for i in range(min(len(la), len(lb))) if la[i] != lb[i]), min(len(la), len(lb)))
     det = f"line {first + 1}: {(la[first].strip() if first < len(la) else '<eof>')!r} vs {(lb[first].strip() if first < len(lb) else '<eof>')!r}"
     cands = []   # (finding ids, X, reorder_only, free)
+    lazy_fixed = tbl["lazy_fixed"]
+    if mod and not tbl["int_enum_fixed"]:
+        # an int enum (int_enum.py.jinja) whose member lines are merely re-ordered
+        ea = next((x for x in ia.get("enums", []) if x["module"] == mod), None)
+        eb = next((x for x in ib.get("enums", []) if x["module"] == mod), None)
+        if ea and eb and ea["kind"] == eb["kind"] == "EnumProperty" and ea["value_type"] == eb["value_type"] == "int":
+            members = {f"{k} = {v}" for k, v in ea["members"]} | {f"{k} = {v}" for k, v in eb["members"]}
+            cands.append((["int_enum_twin_order"], members, True, frozenset()))
     if mod:
         ma = next((x for x in ia["models"] if x["module"] == mod), None)
         mb = next((x for x in ib["models"] if x["module"] == mod), None)
@@ -182,11 +191,11 @@ def media_order_by_design(path, ha, hb, ia, ib):
     return norm(la) == norm(lb)
 
 
-def compare(ta, tb, ia, ib, lazy_fixed):
+def compare(ta, tb, ia, ib, tbl):
     """-> list of (path, verdict, detail) for differing files"""
     out = []
     for p in sorted(set(ta) | set(tb)):
-        v, d = classify_file(p, ta.get(p), tb.get(p), ia, ib, lazy_fixed)
+        v, d = classify_file(p, ta.get(p), tb.get(p), ia, ib, tbl)
         if v != "same":
             out.append((p, v, d))
     return out
@@ -298,12 +307,35 @@ def sort_terms(rng, n):
 
 # ------------------------------------------------------------------ main
 def table_state():
-    """lazy_fixed gen_loops, evaluated inside Coq on the table regenerated in stage A (None if it cannot be evaluated)."""
-    out = coq_eval("Require Import OPC.Order OPC.gen.GenLoops.", "(lazy_fixed gen_loops, forallb loop_ok_or_known gen_loops, forallb loop_ok gen_loops)")
-    m = re.search(r"=\s*\((true|false),\s*(true|false),\s*(true|false)\)", out)
+    """facts about the tables regenerated in stage A, evaluated inside Coq (None if they cannot be evaluated)."""
+    out = coq_eval("Require Import OPC.Order OPC.Registry OPC.gen.GenLoops.",
+                   "(lazy_fixed gen_loops, forallb loop_ok_or_known gen_loops, forallb loop_ok gen_loops, (int_enum_fixed gen_loops, forallb reg_ok gen_registrations, gen_recursion_test_exact))")
+    m = re.search(r"=\s*\((true|false),\s*(true|false),\s*(true|false),\s*\((true|false),\s*(true|false),\s*(true|false)\)\)", out)
     if not m:
-        return None, None, None, out
-    return m.group(1) == "true", m.group(2) == "true", m.group(3) == "true", out
+        return None, out
+    k = ["lazy_fixed", "all_loops_sorted_except_known", "all_loops_sorted", "int_enum_fixed", "registrations_safe", "recursion_test_exact"]
+    return {k[i]: m.group(i + 1) == "true" for i in range(6)}, out
+
+
+def all_orders(d, cap=24):
+    """the document under EVERY order of components.schemas x every order of paths (when that product is <= cap; otherwise every order of the
+    schemas, the paths alternately in original / reversed order).  First element: the document itself."""
+    import copy, itertools
+    sk = list(d["components"]["schemas"])
+    pk = list(d.get("paths", {}))
+    sperms = list(itertools.permutations(sk))
+    pperms = list(itertools.permutations(pk))
+    if len(sperms) * len(pperms) <= cap:
+        combos = [(sp, pp) for sp in sperms for pp in pperms]
+    else:
+        combos = [(sp, (tuple(pk) if i % 2 == 0 else tuple(reversed(pk)))) for i, sp in enumerate(sperms[:cap])]
+    out = []
+    for sp, pp in combos:
+        x = copy.deepcopy(d)
+        x["components"]["schemas"] = {k: d["components"]["schemas"][k] for k in sp}
+        x["paths"] = {k: d["paths"][k] for k in pp}
+        out.append(x)
+    return out
 
 
 def run(run, tier, replay=None):
@@ -326,12 +358,12 @@ def run(run, tier, replay=None):
                         "str.lower() final-sigma rule not modelled (jinja_sort key); .ruff_cache/ (ruff's own cache) is excluded from the tree comparison",
                         "gen_loops.py's set-typedness inference is name based over annotations (conservative: set-typed in any class => set); diagnostic text (EDiag sites) is outside the byte-tree statement",
                         "the abstract retry-loop model Retry.v is tied to the code only through the permutation oracle (no abstraction function is run)"]
-    lazy_fixed, ok_known, ok_all, raw = table_state()
-    run.extra["table"] = {"lazy_fixed": lazy_fixed, "all_loops_sorted_except_known": ok_known, "all_loops_sorted": ok_all}
-    if lazy_fixed is None:
+    tbl, raw = table_state()
+    run.extra["table"] = tbl
+    if tbl is None:
         run.violation("proof-obligation", {"obligation": "gen/GenLoops.v / Order.v do not evaluate", "log": raw[-800:]}, no_input=True)
-        lazy_fixed = True   # be strict in the oracle
-    elif ok_known is False:
+        tbl = {"lazy_fixed": True, "int_enum_fixed": True}   # be strict in the oracle
+    elif tbl["all_loops_sorted_except_known"] is False:
         bad = coq_eval("Require Import OPC.Order OPC.gen.GenLoops.", "map (fun s => (ls_file s, ls_line s, ls_iter s)) (filter (fun s => negb (loop_ok_or_known s)) gen_loops)")
         from lib.common import decode_coq_str
         sites = ["".join(chr(int(x)) for x in re.findall(r"\d+", grp)) for grp in re.findall(r"\[([0-9; \n]*)\]", bad)]
@@ -345,15 +377,17 @@ def run(run, tier, replay=None):
         for v in rp.get("violations", []):
             if "doc_a" in v:
                 items.append(("replay", v["doc_a"], [v["doc_b"]], [], v.get("seed_a", 0), v.get("seed_b", 0), v.get("hooks", False)))
-        return replay_items(run, items, lazy_fixed)
+        return replay_items(run, items, tbl)
     doc_list = []   # (name, [variants], feats)
+    def variants(d):
+        return [d, gdocs.permute(d, rng, "reversed")] + [gdocs.permute(d, rng) for _ in range(n_perm - 2)] + [gdocs.permute(d, rng, "media")]
     for name, d in gdocs.corpus():
-        vs = [d, gdocs.permute(d, rng, "reversed")] + [gdocs.permute(d, rng) for _ in range(n_perm - 2)] + [gdocs.permute(d, rng, "media")]
-        doc_list.append((name, vs, ["corpus"]))
+        doc_list.append((name, variants(d), ["corpus"]))
+    for name, d in gdocs.corpus_order():
+        doc_list.append((name, all_orders(d) + [gdocs.permute(d, rng, "media")], ["corpus", "all-permutations"]))
     for i in range(n_random):
-        d, feats = gdocs.gen_document(rng, pressure=(i % 6 == 5))
-        vs = [d, gdocs.permute(d, rng, "reversed")] + [gdocs.permute(d, rng) for _ in range(n_perm - 2)] + [gdocs.permute(d, rng, "media")]
-        doc_list.append((f"rand{i}", vs, feats))
+        d, feats = gdocs.gen_document_order(rng, pressure=(i % 6 == 5))
+        doc_list.append((f"rand{i}", variants(d), feats))
 
     # ---- generate everything (fresh interpreter per (document, seed))
     t0 = time.time()
@@ -362,7 +396,8 @@ def run(run, tier, replay=None):
         futs = {}
         for di, (name, vs, feats) in enumerate(doc_list):
             for s in seeds:
-                futs[ex.submit(run_batch, s, vs if s in order_seeds else vs[:1], False)] = (di, s, False)
+                all_perm = "all-permutations" in feats   # exhaustive orders: under the first hash seed only
+                futs[ex.submit(run_batch, s, vs if (s in order_seeds and not (all_perm and s != seeds[0])) else vs[:1], False)] = (di, s, False)
             if have_ruff:
                 for s in hook_seeds:
                     futs[ex.submit(run_batch, s, vs[:3], True)] = (di, s, True)   # original, reversed, one random order
@@ -403,7 +438,7 @@ def run(run, tier, replay=None):
                         run.violation("oracle", {"note": "a reordering of a diagnostic-free document produced diagnostics", "doc_a": vs[0], "doc_b": vs[vi], "seed_a": ss[0], "seed_b": s,
                                                  "hooks": hooks, "diag": res["diag"][:3], "exc": res["exc"]})
                         continue
-                    for path, verdict, det in compare(base_tree, tree, base_res, res, lazy_fixed):
+                    for path, verdict, det in compare(base_tree, tree, base_res, res, tbl):
                         if media_variant and verdict == "violation" and media_order_by_design(path, base_tree.get(path), tree.get(path), base_res, res):
                             hits["media-type-order(by design)"] = hits.get("media-type-order(by design)", 0) + 1
                             continue
@@ -418,7 +453,7 @@ def run(run, tier, replay=None):
                                 run.violation("oracle", {**payload, "note": f"difference of class {fid}, which is not listed as an open finding"})
     run.extra["finding_differences"] = hits
     run.extra["diagnostic_free_documents"] = clean_docs
-    if lazy_fixed is False and "lazy_unsorted" not in run.known:
+    if tbl["lazy_fixed"] is False and "lazy_unsorted" not in run.known:
         run.violation("proof-obligation", {"obligation": "OrderThm.all_loops_sorted (lazy_fixed gen_loops = false)", "note": "the lazy_imports loops of model.py.jinja are unsorted and lazy_unsorted is not listed as open"}, no_input=not hits.get("lazy_unsorted"))
 
     # ---- stage B: correspondence
@@ -426,7 +461,7 @@ def run(run, tier, replay=None):
     n_sort = len(terms)
     for di, (name, vs, feats) in enumerate(doc_list):
         for vi, (res, tree) in enumerate(results[(di, seeds[0], False)]):
-            if res["exc"]:
+            if res["exc"] or (quick and vi > 1):   # quick: original and reversed order only
                 continue
             for t, p, site in emission_terms(res, tree):
                 terms.append(t)
@@ -448,13 +483,13 @@ def run(run, tier, replay=None):
         run.violation("correspondence", {**m, "note": "implementation's emission differs from Order.emit/jinja_sort"})
 
 
-def replay_items(run, items, lazy_fixed):
+def replay_items(run, items, tbl):
     for (name, da, dbs, _, sa, sb, hooks) in items:
         (ra, ta), = run_batch(sa, [da], hooks)
         for db in dbs:
             (rb, tb), = run_batch(sb, [db], hooks)
             run.note_case({"replay": True, "seed_a": sa, "seed_b": sb}, kind="replay")
-            for path, verdict, det in compare(ta, tb, ra, rb, lazy_fixed):
+            for path, verdict, det in compare(ta, tb, ra, rb, tbl):
                 if verdict != "violation" and all(run.known_finding(fid, f"replay: {path} {det}") for fid in verdict):
                     continue
                 run.violation("oracle", {"first_differing_file": path, "detail": det, "doc_a": da, "doc_b": db, "seed_a": sa, "seed_b": sb, "hooks": hooks})
